@@ -572,6 +572,15 @@ def correspondence(ctx):
             radius = rng.randint(1, 3) * (1.0 if rel else rng.choice(es)) + rng.choice([0.0, 1e-12, -1e-12, 1e-10, 2e-10])
         else:
             radius = rng.uniform(0.3, 3.0 * L)
+        if t % 10 == 2:
+            # 3-D, absolute units, three DIFFERENT element sizes in every order, radius between one and three of the smallest:
+            # the kernel half-width of every axis goes by that axis' own element size
+            dom = [rng.randint(2, 3), rng.randint(2, 3), rng.randint(2, 3)]
+            nel = dom[0] * dom[1] * dom[2]
+            rel = False
+            es = list(list(itertools.permutations([1.0, 1.3, 0.5]))[(t // 10) % 6])
+            radius = rng.uniform(1.05, 2.9)
+            L = max(dom[i_] * es[i_] for i_ in range(3))
         if not rel and rng.random() < 0.5:
             # the same filter in other length units (exact power-of-two factor on element sizes AND radius): same kernel
             fu = 2.0 ** rng.choice([-36, -33, -33, -30, -20, 20])
